@@ -7,6 +7,7 @@ package task
 // Exported face of the F-task set-up, for harnesses living in other packages (environment).
 
 import (
+	"time"
 	"github.com/AliceO2Group/Control/common"
 	"github.com/AliceO2Group/Control/common/controlmode"
 	"github.com/AliceO2Group/Control/common/event"
@@ -111,7 +112,11 @@ func (v *VerifWorld) ServeDeployments(verdict func(className string) int, report
 					st := &mesos.TaskStatus{TaskID: mesos.TaskID{Value: t.taskId}, State: &run, AgentID: &offer.AgentID, ExecutorID: &mesos.ExecutorID{Value: "exec-new"}}
 					if reportRunning {
 						go func() {
-							// the update reaches the core once the task is in the roster (acquireTasks has returned)
+							// an executor needs time to start: the update reaches the core once the task is in the
+							// roster (under the interpreter the timer fires when nothing else can run; a core that
+							// receives TASK_RUNNING before acquireTasks has recorded the task drops the update -
+							// "task not in roster" - which no real master is fast enough for)
+							<-time.After(5 * time.Millisecond)
 							v.M.MessageChannel <- NewTaskStatusMessage(*st)
 						}()
 					}
